@@ -894,6 +894,9 @@ where
                 let ising_flip_weight = ising_ratio(op);
                 mult *= ising_flip_weight;
                 if mult < std::f64::EPSILON {
+                    // Zero probability: reject. The sweep is abandoned half way, so the
+                    // cluster state and substate must not be used to apply the move.
+                    mult = 0.0;
                     break;
                 }
             }
@@ -904,6 +907,7 @@ where
                 n_bonds = 0;
                 // Break early if we reach 0 probability.
                 if mult < std::f64::EPSILON {
+                    mult = 0.0;
                     break;
                 }
 
